@@ -19,6 +19,7 @@ fn main() {
     }
     let code = match args[1].as_str() {
         "replay" => replay::main(&args[2..]),
+        "replay1" => replay::main_one(&args[2..]),
         other => {
             eprintln!("unknown sub-command {other}");
             2
